@@ -106,6 +106,7 @@ class Run:
         self.events = 0
         self.coverage = {}
         self.nt = {}
+        self.library_calls = 0
         self.verdicts = []
         self.samples = []
         self.notes = []
@@ -216,6 +217,8 @@ class Run:
         if deadline_ms is None:
             deadline_ms = 10000 if self.tier == "thorough" else 4000
         env = dict(os.environ)
+        env.pop("DEBUG_I2P", None)      # the library's logger must stay silent
+        env.pop("WARNFAIL_I2P", None)
         env.update(env_extra or {})
         cmd = [exe, "-in", vf, "-out", tf, "-seed", str(self.seed), "-deadline_ms", str(deadline_ms)]
         if workers:
@@ -322,6 +325,14 @@ class Run:
 
     def pick_samples(self, trace_file, n=4):
         lines = open(trace_file).read().splitlines()
+        # library calls made inside sweep events (counted by the driver)
+        for ln in lines:
+            if '"op":"ByteSweep"' in ln or '"op":"RandomSweep"' in ln or '"op":"CodeSweep"' in ln or '"op":"PartialMethods"' in ln or '"op":"ZeroMethods"' in ln or '"op":"Concurrent"' in ln:
+                m = re.search(r'"r":\{(.*)\}', ln)
+                for key in ("n", "ncalls", "nruns"):
+                    mm = re.search(r'"%s":(\d+)' % key, ln[ln.rfind('"r":'):])
+                    if mm:
+                        self.library_calls += int(mm.group(1))
         if not lines:
             return
         step = max(1, len(lines) // n)
@@ -431,6 +442,7 @@ def finish(run, level, rule, assumptions, extra_cov=None, exhaustive=False):
         "rule": rule,
         "exhaustive": exhaustive,
         "events_recorded_from_impl": run.events,
+        "library_calls_inside_sweep_events": run.library_calls,
         "predicate_instances_exercised": cov_mine,
         "model_checking_runs": run.mc_runs,
         "generation_runs": run.gen_runs,
